@@ -116,6 +116,12 @@ def _replay_and_validate(c, cases, label, stats):
     for t in traces:
         for op, ob in zip(t["h"], t["obs"][1:]):
             stats["ops"][op["op"]] = stats["ops"].get(op["op"], 0) + 1
+            if op["op"] == "copy":
+                # call form x layout of the data the call meets (measured; vacuity guard in run())
+                form = ("copy(%s)" if op["a"] else "copy(order=%s)") % op["s"] if op["s"] else "copy()"
+                srcob = t["obs"][int(op["src"]) - 1]
+                layc = "0-d/1-d" if len(srcob["sh"]) <= 1 else "C" if srcob["cc"] else "F/strided"
+                stats["ops"][form + " on " + layc] = stats["ops"].get(form + " on " + layc, 0) + 1
             if ob["k"] in ("Q", "A") and (ob["sh"] == [] or 1 in ob["sh"] or 0 in ob["sh"]):
                 stats["nontrivial"] += 1
             elif any(ob["sm"]):
@@ -135,7 +141,7 @@ def _single(c, stats):
     for k in range(ns):
         cfg = open(c.spec + f"/{src}.cfg").read().replace("Slice = 0", f"Slice = {k}").replace("NSlices = 1", f"NSlices = {ns}")
         open(c.spec + f"/MC_C16_single_run{k}.cfg", "w").write(cfg)
-        jobs.append(("MC_C16", f"MC_C16_single_run{k}", dict(workers=1, label=f"single-call table ({src}) slice {k}/{ns}", timeout=3000)))
+        jobs.append(("MC_C16", f"MC_C16_single_run{k}", dict(workers=1, coverage=False, label=f"single-call table ({src}) slice {k}/{ns}", timeout=3000)))
     results = _parallel(c, jobs)
     recs = [r for res in results for r in res.by_tag("H")]
     if len(recs) < 1000:
@@ -207,7 +213,7 @@ def _mixed(c, stats):
         if c.tier == "quick":
             cfg = cfg.replace('Layouts = {"C", "F"}', 'Layouts = {"C"}').replace("MixQuick = FALSE", "MixQuick = TRUE")
         open(c.spec + f"/MC_C16_mixed_run{k}.cfg", "w").write(cfg)
-        jobs.append(("MC_C16", f"MC_C16_mixed_run{k}", dict(workers=1, label=f"mixed-unit lists slice {k}/{ns}", timeout=3000)))
+        jobs.append(("MC_C16", f"MC_C16_mixed_run{k}", dict(workers=1, coverage=False, label=f"mixed-unit lists slice {k}/{ns}", timeout=3000)))
     recs = [r for res in _parallel(c, jobs) for r in res.by_tag("H")]
     if len(recs) < 500:
         raise MachineryFailure("too few mixed-list cases exported")
@@ -273,6 +279,12 @@ def run(ck):
             stats["ops"][k] = stats["ops"].get(k, 0) + v
         for k, v in st["driftcls"].items():
             stats["driftcls"][k] = stats["driftcls"].get(k, 0) + v
+    # vacuity guard (the table runs without TLC's coverage statistics): every call form of copy() met every class of
+    # data layout
+    need = ["copy()"] + ["copy(order=%s)" % o for o in "CFAK"] + ["copy(%s)" % o for o in "CFAK"]
+    miss = [f + " on " + lc for f in need for lc in ("0-d/1-d", "C", "F/strided") if not stats["ops"].get(f + " on " + lc) and not (f.startswith("copy(") and "=" not in f and f != "copy()" and lc == "F/strided")]
+    if miss:
+        raise MachineryFailure("copy() call forms not generated: " + ", ".join(miss))
     ck.cov["exhaustive"] = True
     ck.cov["evaluations"] = stats["evaluations"]
     ck.cov["distinct_nontrivial"] = stats["nontrivial"]
